@@ -23,17 +23,17 @@
       cJSON_IsReference cleared, valueint / valuedouble equal, [rd_ref] cleared, valuestring / key
       blocks hold the source's C string followed by the terminator ([str_copy]) — except a key with
       cJSON_StringIsConst, which is the SAME block.
-    * [Frame ns ss h h']: [h'] is [h] plus the new node blocks [ns] and new string blocks [ss]:
+    * [Ext ns ss h h'] (heap extension): [h'] is [h] plus the new node blocks [ns] and new string blocks [ss]:
       link / data / string entries and liveness of every other identity are equal, ownership tags
       of all identities below [h_next h] are equal, hooks equal, the new blocks have identities
-      in [[h_next h, h_next h')], are live and tagged [Lib].  [Frame [] [] h h'] therefore says that
+      in [[h_next h, h_next h')], are live and tagged [Lib].  [Ext [] [] h h'] therefore says that
       [h'] differs from [h] only in [h_next], [h_req], [h_trace] and the ownership tags of
       identities that no longer exist ([C11_failure_means]).
     * [ofail oracle h h'] / [oclean oracle h h']: some / no request made between [h] and [h'] was
       refused. *)
 From CJ Require Import Base Dbl Heap Forest ForestLemmas CoreSpec CoreDefs CoreRefineBase CoreRefine CoreRefineDelete
   CoreRefineDupBase CoreRefineDupTree CoreRefineDupNode CoreRefineDupLoop CoreRefineDup CoreRefineDupForest
-  CoreRefineDupLimit CoreRefineDupIndep CoreRefineDupValue CoreRefineDupExample.
+  CoreRefineDupLimit CoreRefineDupIndep CoreRefineDupValue CoreRefineDupUnroll CoreRefineDupExample.
 From CJ Require Tree CompareDefs PrintDefs.
 From CJ.gen Require Import Constants.
 From stdpp Require Import gmap.
@@ -48,7 +48,7 @@ From stdpp Require Import gmap.
     some request was refused;
     OR returns a new root [tc]: the heap encodes [F ++ [tc]], [tc] is a copy of what the heap reads
     as below the item, nothing was cut off, everything the old heap contained is untouched
-    ([Frame]), the copy's root has no sibling links, the copy owns no block of [F] and all its
+    ([Ext]), the copy's root has no sibling links, the copy owns no block of [F] and all its
     blocks are new, and no request was refused. *)
 Theorem C11_copy : forall (oracle : nat -> bool) h F t,
   WF h F -> Closed h -> src_t h (Pos.to_nat (h_next h)) (Z.to_nat c_CJSON_CIRCULAR_LIMIT) t ->
@@ -59,7 +59,7 @@ Theorem C11_copy : forall (oracle : nat -> bool) h F t,
       h_hooks h' = h_hooks h /\ lib_live h' = lib_live h /\ Closed h' /\ (complete t -> ofail oracle h h')) \/
      (exists tc, r = Some (tid tc) /\ WF h' (F ++ [tc]) /\ (NoLeak h F -> NoLeak h' (F ++ [tc])) /\
         copy_of h' t tc /\ complete t /\
-        Frame (nids (flat_t tc)) (sids (flat_t tc)) h h' /\
+        Ext (nids (flat_t tc)) (sids (flat_t tc)) h h' /\
         h_lnk h' !! tid tc = Some (None, None) /\
         (forall b, b ∈ owned F -> b ∉ owned [tc]) /\
         (forall b, b ∈ owned [tc] -> (h_next h <= b)%positive /\ b ∉ h_live h) /\
@@ -79,13 +79,39 @@ Theorem C11_copy_subtree : forall (oracle : nat -> bool) h F p t,
       h_hooks h' = h_hooks h /\ lib_live h' = lib_live h /\ Closed h' /\ ofail oracle h h') \/
      (exists tc, r = Some (tid tc) /\ WF h' (F ++ [tc]) /\ (NoLeak h F -> NoLeak h' (F ++ [tc])) /\
         copy_of h' t tc /\
-        Frame (nids (flat_t tc)) (sids (flat_t tc)) h h' /\
+        Ext (nids (flat_t tc)) (sids (flat_t tc)) h h' /\
         h_lnk h' !! tid tc = Some (None, None) /\
         (forall b, b ∈ owned F -> b ∉ owned [tc]) /\
         (forall b, b ∈ owned [tc] -> (h_next h <= b)%positive /\ b ∉ h_live h) /\
         oclean oracle h h')).
 Proof. exact dup_copy. Qed.
 Print Assumptions C11_copy_subtree.
+
+(** References inside the source become owned copies.  For a forest that contains reference nodes
+    with a borrowed child pointer ([rd_ref d = Some c], made by [create_reference] /
+    cJSON_CreateArrayReference / cJSON_CreateObjectReference) whose targets are nodes of the forest
+    ([refs_in]) and whose strings are readable ([all_readable]): the source of the copy is
+    [unroll F limit t] — the subtree [t] in which every such node got as children the chain
+    that starts at [c] ([kids]: [c] and its following siblings), recursively, cut off at the depth
+    limit — and the copy OWNS copies of these chains ([WF h' (F ++ [tc])] with [tc] of that shape;
+    [tc]'s reference bits are cleared and its [rd_ref] are [None]: [copy_of]). *)
+Theorem C11_copy_references : forall (oracle : nat -> bool) h F p t,
+  WF h F -> Closed h -> refs_in F -> all_readable h F -> find_tree p F = Some t ->
+  let u := unroll F (Z.to_nat c_CJSON_CIRCULAR_LIMIT) t in
+  exists r h',
+    cJSON_Duplicate oracle (Some p) true h = Ret (r, h') /\
+    ((r = None /\ WF h' F /\ (NoLeak h F -> NoLeak h' F) /\
+      h_lnk h' = h_lnk h /\ h_dat h' = h_dat h /\ h_str h' = h_str h /\ h_live h' = h_live h /\
+      h_hooks h' = h_hooks h /\ lib_live h' = lib_live h /\ Closed h' /\ (complete u -> ofail oracle h h')) \/
+     (exists tc, r = Some (tid tc) /\ WF h' (F ++ [tc]) /\ (NoLeak h F -> NoLeak h' (F ++ [tc])) /\
+        copy_of h' u tc /\ complete u /\
+        Ext (nids (flat_t tc)) (sids (flat_t tc)) h h' /\
+        h_lnk h' !! tid tc = Some (None, None) /\
+        (forall b, b ∈ owned F -> b ∉ owned [tc]) /\
+        (forall b, b ∈ owned [tc] -> (h_next h <= b)%positive /\ b ∉ h_live h) /\
+        oclean oracle h h')).
+Proof. exact dup_copy_ref. Qed.
+Print Assumptions C11_copy_references.
 
 (** Without refused requests the copy is made. *)
 Theorem C11_copy_no_failure : forall h F p t,
@@ -98,7 +124,7 @@ Proof. exact dup_copy_no_failure. Qed.
 Print Assumptions C11_copy_no_failure.
 
 (** The heap-level statement behind the two above, on ANY closed heap (no forest needed):
-    [Post] is "NULL, [Frame [] [] h h'], and a refused request unless cut off" or
+    [Post] is "NULL, [Ext [] [] h h'], and a refused request unless cut off" or
     "[Some (tid tc)], [Done]": frame, distinct new blocks, encoding of [tc] as a detached tree
     ([Chain_ok h' [tc] None]), [copy_of], [complete], no refused request. *)
 Theorem C11_copy_heap : forall (oracle : nat -> bool) h t,
@@ -113,9 +139,9 @@ Theorem C11_copy_flat : forall (oracle : nat -> bool) h i d (ks : list positive)
   Closed h -> src_node h (Pos.to_nat (h_next h)) i d ks ->
   exists r h',
     cJSON_Duplicate oracle (Some i) false h = Ret (r, h') /\
-    ((r = None /\ Frame [] [] h h' /\ ofail oracle h h') \/
+    ((r = None /\ Ext [] [] h h' /\ ofail oracle h h') \/
      (exists d2, r = Some (h_next h) /\
-        Frame (nids (flat_t (T (h_next h) d2 []))) (sids (flat_t (T (h_next h) d2 []))) h h' /\
+        Ext (nids (flat_t (T (h_next h) d2 []))) (sids (flat_t (T (h_next h) d2 []))) h h' /\
         NoDup (nids (flat_t (T (h_next h) d2 [])) ++ sids (flat_t (T (h_next h) d2 []))) /\
         Chain_ok h' [T (h_next h) d2 []] None /\ Forall ref_ok (flat_t (T (h_next h) d2 [])) /\
         data_copy h' d d2 /\ oclean oracle h h')).
@@ -128,19 +154,28 @@ Proof. exact cJSON_Duplicate_null. Qed.
 
 (** What a failed call leaves: everything but the allocator's counters and the trace. *)
 Theorem C11_failure_means : forall h h',
-  Frame [] [] h h' ->
+  Ext [] [] h h' ->
   h_lnk h' = h_lnk h /\ h_dat h' = h_dat h /\ h_str h' = h_str h /\ h_live h' = h_live h /\
   h_hooks h' = h_hooks h /\ lib_live h' = lib_live h.
-Proof. exact Frame_nil_eq. Qed.
+Proof. exact Ext_nil_eq. Qed.
 Print Assumptions C11_failure_means.
 
 (** What a successful call leaves of the old heap: every block that was live. *)
 Theorem C11_source_unchanged : forall ns ss h h' k,
-  Frame ns ss h h' -> k ∈ h_live h ->
+  Ext ns ss h h' -> k ∈ h_live h ->
   h_lnk h' !! k = h_lnk h !! k /\ h_dat h' !! k = h_dat h !! k /\ h_str h' !! k = h_str h !! k /\
   h_own h' !! k = h_own h !! k /\ k ∈ h_live h'.
-Proof. exact Frame_preserves. Qed.
+Proof. exact Ext_preserves. Qed.
 Print Assumptions C11_source_unchanged.
+
+(** The keys of the extended forest are readable C strings again (what the by-key queries need),
+    provided the shared constant keys of the source are. *)
+Theorem C11_keys_readable : forall h h' F t tc,
+  KeysReadable h F -> Ext (nids (flat_t tc)) (sids (flat_t tc)) h h' -> copy_of h' t tc ->
+  (forall i d (ks : list positive) b, (i, d, ks) ∈ flat_t t -> rd_key d = Some b -> is_const d = true -> readable h' b) ->
+  KeysReadable h' (F ++ [tc]).
+Proof. exact Done_KeysReadable. Qed.
+Print Assumptions C11_keys_readable.
 
 (** ------------------------------------------------------------------ 2. equal values *)
 
@@ -189,16 +224,16 @@ Print Assumptions C11_source_independent.
 (** Deleting the copy gives the heap before the call back (up to the allocator's counters): the
     ledger is balanced. *)
 Theorem C11_delete_copy : forall h h' F tc,
-  WF h F -> Frame (nids (flat_t tc)) (sids (flat_t tc)) h h' ->
+  WF h F -> Ext (nids (flat_t tc)) (sids (flat_t tc)) h h' ->
   NoDup (nids (flat_t tc) ++ sids (flat_t tc)) -> Chain_ok h' [tc] None -> Forall ref_ok (flat_t tc) ->
-  exists h'', cJSON_Delete (Some (tid tc)) h' = Ret (tt, h'') /\ Frame [] [] h h'' /\ WF h'' F /\
+  exists h'', cJSON_Delete (Some (tid tc)) h' = Ret (tt, h'') /\ Ext [] [] h h'' /\ WF h'' F /\
     lib_live h'' = lib_live h.
 Proof. exact dup_then_delete_copy. Qed.
 Print Assumptions C11_delete_copy.
 
 (** Deleting the source (a root of the forest) leaves every block of the copy as it is. *)
 Theorem C11_delete_source : forall h h' F tc,
-  WF h F -> Frame (nids (flat_t tc)) (sids (flat_t tc)) h h' ->
+  WF h F -> Ext (nids (flat_t tc)) (sids (flat_t tc)) h h' ->
   NoDup (nids (flat_t tc) ++ sids (flat_t tc)) -> Chain_ok h' [tc] None -> Forall ref_ok (flat_t tc) ->
   forall p t, find_root p F = Some t ->
   exists h'', cJSON_Delete (Some p) h' = Ret (tt, h'') /\ WF h'' (remove_root p F ++ [tc]) /\
@@ -214,20 +249,31 @@ Print Assumptions C11_delete_source.
     chain is finite ([Walkable]: the [child] graph is arbitrary — over-deep, shared or cyclic): the
     call terminates without error outcome (never [Err NoFuel]); if a descending path of more than
     CJSON_CIRCULAR_LIMIT child steps exists below the item ([deep]) the result is NULL; whenever the
-    result is NULL the heap is as before ([Frame [] []]: everything allocated was released, the
+    result is NULL the heap is as before ([Ext [] []]: everything allocated was released, the
     source untouched); otherwise a copy was made ([Done]). *)
 Theorem C11_limit : forall (oracle : nat -> bool) h (R : positive -> Prop) p,
   Closed h -> Walkable h R -> R p ->
   exists r h',
     cJSON_Duplicate oracle (Some p) true h = Ret (r, h') /\
     (deep h (Z.to_nat c_CJSON_CIRCULAR_LIMIT) p -> r = None) /\
-    (r = None -> Frame [] [] h h') /\
+    (r = None -> Ext [] [] h h') /\
     (forall c, r = Some c ->
        exists t tc, tid t = p /\ tid tc = c /\
                     src_t h (Pos.to_nat (h_next h)) (Z.to_nat c_CJSON_CIRCULAR_LIMIT) t /\
                     Done oracle h t tc h').
 Proof. exact dup_limit. Qed.
 Print Assumptions C11_limit.
+
+(** In particular a well-formed tree higher than the limit is refused: NULL, heap as before. *)
+Theorem C11_too_deep : forall (oracle : nat -> bool) h F p t,
+  WF h F -> Closed h -> refs_in F -> all_readable h F -> find_tree p F = Some t ->
+  Z.to_nat c_CJSON_CIRCULAR_LIMIT < height t ->
+  exists h',
+    cJSON_Duplicate oracle (Some p) true h = Ret (None, h') /\ WF h' F /\ (NoLeak h F -> NoLeak h' F) /\
+    h_lnk h' = h_lnk h /\ h_dat h' = h_dat h /\ h_str h' = h_str h /\ h_live h' = h_live h /\
+    h_hooks h' = h_hooks h /\ lib_live h' = lib_live h /\ Closed h'.
+Proof. exact dup_too_deep. Qed.
+Print Assumptions C11_too_deep.
 
 (** ------------------------------------------------------------------ 5. non-vacuity *)
 
@@ -253,6 +299,17 @@ Theorem C11_example_success :
 Proof. exact ex_success. Qed.
 Print Assumptions C11_example_success.
 
+(** … also through [C11_copy_references]: [ex_F], [ex_h] satisfy [refs_in] and [all_readable], and
+    the unrolling of the object is [ex_t]. *)
+Theorem C11_example_references :
+  refs_in ex_F /\ all_readable ex_h ex_F /\ find_tree 6%positive ex_F = Some ex_t0 /\
+  unroll ex_F (Z.to_nat c_CJSON_CIRCULAR_LIMIT) ex_t0 = ex_t /\
+  exists tc h',
+    cJSON_Duplicate orc0 (Some 6%positive) true ex_h = Ret (Some (tid tc), h') /\
+    WF h' (ex_F ++ [tc]) /\ copy_of h' ex_t tc.
+Proof. exact (conj ex_refs_in (conj ex_all_readable (conj ex_find (conj ex_unroll ex_success_ref)))). Qed.
+Print Assumptions C11_example_references.
+
 (** … and the failure branch when the third request of the call is refused. *)
 Theorem C11_example_failure :
   exists h',
@@ -265,9 +322,9 @@ Print Assumptions C11_example_failure.
 
 (** A node that is its own child, and a 2-cycle: refused with NULL for every oracle, heap as before. *)
 Theorem C11_example_self_loop : forall oracle,
-  exists h', cJSON_Duplicate oracle (Some 1%positive) true loop_h = Ret (None, h') /\ Frame [] [] loop_h h'.
+  exists h', cJSON_Duplicate oracle (Some 1%positive) true loop_h = Ret (None, h') /\ Ext [] [] loop_h h'.
 Proof. exact loop_refused. Qed.
 Theorem C11_example_two_cycle : forall oracle,
-  exists h', cJSON_Duplicate oracle (Some 1%positive) true cyc2_h = Ret (None, h') /\ Frame [] [] cyc2_h h'.
+  exists h', cJSON_Duplicate oracle (Some 1%positive) true cyc2_h = Ret (None, h') /\ Ext [] [] cyc2_h h'.
 Proof. exact cyc2_refused. Qed.
 Print Assumptions C11_example_two_cycle.
